@@ -107,6 +107,11 @@ def run(ctx):
                for t, forever in [(["VEVENT", "VTODO", "VJOURNAL"][i % 3], (i // 3) % 3 != 2)]]
     objs = [c[1] for c in corpus] + leading + [X.gen_obj(rng) for _ in range(nobj)]
     ctx.count("object:first-instances-removed-by-EXDATE", len(leading))
+    # beyond the grammar of the Coq model: RDATE, several instances per day, rescheduled instances (RECURRENCE-ID);
+    # these go through the oracle monitors only (no model to diff against)
+    ext = [X.gen_ext_event(rng) for _ in range(ctx.n(70, 900))]
+    for o in ext:
+        ctx.count("object:ext:%s" % ("+".join(k for k in ("rdate", "overrides") if o.get(k)) + ("+" + o["rec"]["freq"] if o["rec"] else "")))
     for o in objs:
         ctx.count("object:%s" % o["t"])
         ctx.count("rule:%s" % ("none" if not o.get("rec") else (o["rec"]["bound"][0] if o["rec"]["bound"] else "unbounded")))
@@ -208,8 +213,9 @@ def run(ctx):
     filter_level(ctx, objs)
 
     # ------------------------------------------------------------------ level 3: REPORTs over the in-process server
-    report_level(ctx, objs, corpus, first_violation, leading)
-    freebusy_level(ctx, objs)
+    ext_level(ctx, ext, first_violation)
+    report_level(ctx, objs, corpus, first_violation, leading, ext)
+    freebusy_level(ctx, objs, ext)
 
 
 VARIANTS = ["plain", "prop-true", "twice", "prop-false", "no-range", "not-defined", "two-filters", "range-second", "unknown",
@@ -255,6 +261,50 @@ def build_filters(variant, comp, r, sp=None):
     if variant == "prop-at-cal":
         return [cal([pf(2), ["cf", comp, [tr]]])]
     raise AssertionError(variant)
+
+
+def ext_level(ctx, ext, first_violation):
+    """Objects outside the Coq grammar (RDATE, FREQ=HOURLY with rescheduled instances, ...), function level, against the
+    independent occurrence arithmetic: (a) the visitor hands out exactly the instances of the object, each with its own
+    start and end; (b) find_time_range is their hull; (c) time_range_match = the 9.9 tables."""
+    rng = ctx.rng
+    for o in ext:
+        vo = X.parse(o)
+        bounded = not (o["rec"] and not o["rec"]["bound"])
+        if bounded:
+            got = X.real_record(o, 2000)
+            want = X.event_instances(o, None)
+            ctx.case(("ext-visit", okey(o)), nontrivial=True)
+            if (isinstance(got, str) or sorted((c[0], c[1]) for c in got) != want) and "ext-visit" not in first_violation:
+                first_violation["ext-visit"] = True
+                have = got if isinstance(got, str) else sorted((c[0], c[1]) for c in got)
+                missing = [w for w in want if isinstance(have, str) or w not in have][:5]
+                ctx.violation("visit_time_ranges hands out %s; the instances of the object are %s (missing: %s) on %s" % (
+                    have if isinstance(have, str) else [(X.fmt_dt(a), X.fmt_dt(b)) for a, b in have[:8]],
+                    [(X.fmt_dt(a), X.fmt_dt(b)) for a, b in want[:8]], [(X.fmt_dt(a), X.fmt_dt(b)) for a, b in missing],
+                    X.to_ics(o).replace("\r\n", "|")),
+                    dict(level="function-visit", object=o, ics=X.to_ics(o), visited=have, instances=want),
+                    signature="C16: the visitor does not hand out exactly the instances of the object")
+            h = X.real_hull(vo, o)
+            wh = (min(a for a, _ in want), max(b for _, b in want)) if want else ("MInf", "PInf")
+            ctx.case(("ext-hull", okey(o)), nontrivial=True)
+            if tuple(h) != wh and "ext-hull" not in first_violation:
+                first_violation["ext-hull"] = True
+                ctx.violation("find_time_range gives %r, the instances span %r on %s" % (h, wh, X.to_ics(o).replace("\r\n", "|")),
+                              dict(level="function-hull", object=o, ics=X.to_ics(o), hull=h, instances=want),
+                              signature="C16: the enclosing range is not the hull of the instances")
+        for r in X.boundary_ranges(rng, o, ctx.n(8, 20)):
+            if not X.proper(r):
+                continue
+            m = X.real_match(vo, o, r)
+            want = X.rfc_overlaps(o, r)
+            ctx.case(("ext-match", okey(o), tuple(r)), nontrivial=True)
+            if m != want and "ext-match" not in first_violation:
+                first_violation["ext-match"] = True
+                ctx.violation("time_range_match=%r but RFC 4791 9.9 says %r for range %s..%s on %s" % (
+                    m, want, r[0] and X.fmt_dt(r[0]), r[1] and X.fmt_dt(r[1]), X.to_ics(o).replace("\r\n", "|")),
+                    dict(level="function", object=o, ics=X.to_ics(o), range=r, got=m, rfc=want),
+                    signature="C16: time_range_match differs from RFC 4791 9.9 (RDATE / several instances per day / rescheduled instance)")
 
 
 def filter_level(ctx, objs):
@@ -303,7 +353,7 @@ def filter_level(ctx, objs):
     ctx.count("cases:test_filter", len(tcases))
 
 
-def report_level(ctx, objs, corpus, first_violation, leading):
+def report_level(ctx, objs, corpus, first_violation, leading, ext=()):
     rng = ctx.rng
     batch_size = 10
     nbatches = ctx.n(7, 40)
@@ -313,11 +363,16 @@ def report_level(ctx, objs, corpus, first_violation, leading):
     meta = []
     with impl.Server(conf=CONF) as srv:
         srv.mkcol("/u/", login="u:")
-        for b in range(nbatches):
-            if b == 0:
+        next_ = ctx.n(2, 12) if ext else 0
+        for b in range(nbatches + next_):
+            if b >= nbatches:
+                # objects beyond the Coq grammar: monitors only
+                batch = [ext[rng.randrange(len(ext))] for _ in range(batch_size)]
+                qranges = []
+            elif b == 0:
                 batch = [c[1] for c in corpus]          # the regression corpus as one collection
                 qranges = [(c[1], c[2]) for c in corpus]
-            elif b == 1 or b % 7 == 1:
+            elif b % 7 == 1:
                 # a collection of objects whose first instance(s) are removed by EXDATE; queries in the gap
                 batch = [leading[rng.randrange(len(leading))] for _ in range(batch_size)]
                 qranges = [(o, X.leading_gap_ranges(rng, o, 1)[0]) for o in batch for _ in range(2)]
@@ -326,7 +381,7 @@ def report_level(ctx, objs, corpus, first_violation, leading):
                 qranges = []
             path = "/u/c%d/" % b
             put_objects(srv, path, batch)
-            while len(qranges) < (len(corpus) if b == 0 else 20 if b % 7 == 1 else 0) + qper - (8 if b % 7 == 1 else 0):
+            while len(qranges) < (len(corpus) if b == 0 else 20 if (b % 7 == 1 and b < nbatches) else 0) + qper - (8 if (b % 7 == 1 and b < nbatches) else 0):
                 o = rng.choice(batch)
                 qranges.append((o, X.boundary_ranges(rng, o, 1)[0]))
             for qi, (o, r) in enumerate(qranges):
@@ -342,8 +397,9 @@ def report_level(ctx, objs, corpus, first_violation, leading):
                     fs = build_filters(v, comp, r, sp)
                     got = do_query(srv, path, fs)
                     answers[v] = got
-                    rcases.append(((fs, batch), got))
-                    meta.append((v, comp, r))
+                    if b < nbatches:
+                        rcases.append(((fs, batch), got))
+                        meta.append((v, comp, r))
                     ctx.case(("l3", v, comp, tuple(r), X.xml_query(fs), tuple(okey(x) for x in batch)), nontrivial=r != [None, None],
                              sample=dict(level=3, variant=v, query=X.xml_query(fs), answer=got) if len(ctx.samples) < 5 else None)
                     ctx.count("variant:%s" % v)
@@ -421,11 +477,11 @@ Definition perm_fb (a b : list (xt * xt * Z)) : bool :=
 """
 
 
-def freebusy_level(ctx, objs):
+def freebusy_level(ctx, objs, ext=()):
     rng = ctx.rng
     events = [o for o in objs if o["t"] == "VEVENT"]
     others = [o for o in objs if o["t"] != "VEVENT"]
-    nb = ctx.n(5, 40)
+    nb = ctx.n(6, 40)
     qper = ctx.n(12, 30)
     cases, meta = [], []
     seen_violation = False
@@ -434,7 +490,9 @@ def freebusy_level(ctx, objs):
         conf = dict(CONF, reporting={"max_freebusy_occurrence": str(maxo)})
         with impl.Server(conf=conf) as srv:
             srv.mkcol("/u/", login="u:")
-            batch = [rng.choice(events) for _ in range(7)] + [rng.choice(others) for _ in range(2)]
+            with_ext = bool(ext) and b % 2 == 1
+            pool = list(ext) if with_ext else events
+            batch = [rng.choice(pool) for _ in range(7)] + [rng.choice(others) for _ in range(2)]
             flags = [rng.choice(FB_EXTRA) for _ in batch]
             put_objects(srv, "/u/fb/", batch, extras=[f[0] for f in flags])
             for _ in range(qper):
@@ -447,8 +505,9 @@ def freebusy_level(ctx, objs):
                 got = None
                 if st == 200:
                     got = X.fb_periods(body)
-                cases.append(((maxo, r, list(zip(batch, flags))), got))
-                meta.append((maxo, r, st))
+                if not with_ext:
+                    cases.append(((maxo, r, list(zip(batch, flags))), got))
+                    meta.append((maxo, r, st))
                 ctx.case(("fb", maxo, tuple(r), tuple(okey(x) for x in batch), tuple(f[2] for f in flags)), nontrivial=True)
                 ctx.count("freebusy:%s" % ("cap" if st != 200 else "ok"))
                 # monitor: every occurrence of every opaque event overlapping the range, with its start and end, nothing else
@@ -458,12 +517,7 @@ def freebusy_level(ctx, objs):
                     for x, f in zip(batch, flags):
                         if x["t"] != "VEVENT" or f[1] or not X.in_grammar(x):
                             continue
-                        for D in X.occurrences(x["start"], x["rec"], r[1] + X.DAY):
-                            if X.rfc_rows(x, D, r[0], r[1]):
-                                e = x["end"]
-                                ln = (e[1] - x["start"]) if e and e[0] == "dtend" else (e[1] if e and e[0] == "dur" and e[1] > 0 else
-                                                                                        (X.DAY if (not e and x["kind"] == "DATE") else 1))
-                                want.append((D, D + ln, f[2]))
+                        want += [(a, bb, f[2]) for a, bb in X.event_overlapping(x, r)]
                         per_item.append(sum(1 for w in want) - sum(per_item))
                     if got is None and max(per_item) >= maxo:
                         continue            # the occurrence cap: a refusal is the configured behaviour
